@@ -181,13 +181,26 @@ func ExtractProviders(c *Ctx) (*ProviderTable, error) {
 			return nil, errf("providerMap[%s] is not a function", k)
 		}
 		pt.Kind2Ctor[k] = f
-		for _, rv := range returnedValues(f, 0) {
-			if mi, ok := rv.(*ssa.MakeInterface); ok {
-				if n := namedOf(mi.X.Type()); n != nil {
-					pt.Kind2Type[k] = n
+		// the concrete type the constructor boxes — through constructors it delegates to
+		var find func(fn *ssa.Function, d int)
+		find = func(fn *ssa.Function, d int) {
+			if d > 3 || len(fn.Blocks) == 0 {
+				return
+			}
+			for _, rv := range returnedValues(fn, 0) {
+				switch x := rv.(type) {
+				case *ssa.MakeInterface:
+					if n := namedOf(x.X.Type()); n != nil {
+						pt.Kind2Type[k] = n
+					}
+				case *ssa.Call:
+					if callee := x.Call.StaticCallee(); callee != nil && c.modFuncSet[callee] {
+						find(callee, d+1)
+					}
 				}
 			}
 		}
+		find(f, 0)
 		if pt.Kind2Type[k] == nil {
 			return nil, errf("runtime type of providerMap[%s] (%s) not determined", k, f.Name())
 		}
